@@ -515,8 +515,72 @@ func c16E2EMulti(r *vlib.Run) {
 	}
 }
 
+// c16E2EMultiMapr: the real dmap connected to four servers which all deliver, at the same time, aggregate records for
+// the same twenty thousand groups (coloured and --noColor): the client must survive and print its result table.
+func c16E2EMultiMapr(r *vlib.Run) {
+	dir := r.Dir("c16multimapr")
+	hk := vlib.HostKey()
+	hkFile := filepath.Join(dir, "hostkey.pem")
+	os.WriteFile(hkFile, hk.PEM, 0600)
+	key := clientKey()
+	nKeys := 20000
+	var stream bytes.Buffer
+	for k := 0; k < nKeys; k++ {
+		fmt.Fprintf(&stream, "AGGREGATE|srv|k%06d∥1∥count($line)≔1∥id≔k%06d∥", k, k)
+		stream.WriteByte(0xAC)
+	}
+	p := filepath.Join(dir, "aggr.bin")
+	os.WriteFile(p, stream.Bytes(), 0644)
+	defer os.Remove(p)
+	for round := 0; round < r.N(2, 8); round++ {
+		nPorts := 4
+		var ports []int
+		var servers []string
+		seen := map[int]bool{}
+		for len(ports) < nPorts {
+			q := vlib.FreePort()
+			if q != 0 && !seen[q] {
+				seen[q] = true
+				ports = append(ports, q)
+				servers = append(servers, fmt.Sprintf("127.0.0.1:%d", q))
+			}
+		}
+		f, err := startFakeSSHD(r, fmt.Sprintf("c16mm-%d", round), ports, []string{hkFile}, p, 300)
+		if err != nil {
+			r.Inconclusive("fakesshd")
+			return
+		}
+		home, keyFile := r.ClientHome(fmt.Sprintf("c16mm-%d", round), key)
+		args := []string{"--cfg", "none", "--trustAllHosts", "--logger", "stdout", "--logLevel", "error", "--key", keyFile, "--user", "tester",
+			"--servers", strings.Join(servers, ","), "--files", "/var/log/x.log", "--query", "select id,count($line) group by id order by count($line) limit 5"}
+		if round%2 == 1 {
+			args = append(args, "--noColor")
+		}
+		res := vlib.RunCmd(vlib.Cmd{Path: r.Bin("dmap"), Args: args, Env: []string{"HOME=" + home}, Dir: home, Watchdog: 240 * time.Second})
+		f.Stop()
+		os.RemoveAll(home)
+		r.Eval(fmt.Sprintf("e2e-multi-mapr|%d", round))
+		r.Count("e2e_dmap_runs_with_four_servers_delivering_the_same_groups_at_once", 1)
+		if res.TimedOut {
+			r.Inconclusive("client-watchdog")
+			continue
+		}
+		out := stripSGR(string(res.Stdout))
+		d := map[string]interface{}{"servers": nPorts, "groups": nKeys, "coloured": round%2 == 0, "exit": res.Exit, "stderr": vlib.Trunc(string(res.Stderr), 1500), "stdout_tail": vlib.Trunc(out[len(out)-min(len(out), 600):], 600)}
+		if res.Panicked() || res.Hung || strings.Contains(string(res.Stderr), "fatal error:") {
+			r.Violation("e2e-client-crash", d)
+			continue
+		}
+		// every group was delivered once by each of the four servers
+		if !strings.Contains(out, "k0") || !regexp.MustCompile(`k\d{6}\s*\|\s*4\b`).MatchString(out) {
+			r.Violation("e2e-result-table-missing-or-wrong", d)
+		}
+	}
+}
+
 func c16E2E(r *vlib.Run) {
 	c16E2EMulti(r)
+	c16E2EMultiMapr(r)
 	n := r.N(36, 900)
 	rng := r.Rng("e2e")
 	dir := r.Dir("c16e2e")
